@@ -20,6 +20,12 @@ CHECKS = {
  "C07": dict(technique="static analysis: symbolic blob terms (via paseto-core generics, DH/RSA-KEM algebra) compared with specification terms and between siblings; T-FIXW over FFI big-integer encoders; unwrap Err-exit whitelist",
    text="For 6 backends x {PIE, PBKW, PKE}: the blob term equals the PASERK specification term (domain bytes, KDF identities/split points, cipher incl. 128-bit CTR counter, MAC transcript order, parameter field layout), siblings (v3/aws-lc, v4/sodium, v1/v3, v2/v4) agree up to listed guarded deltas, every BN_bn2bin writes right-aligned into a fixed-width buffer, unwrap functions reject only on conditions the format states.",
    ref="DESIGN.md §4 C07"),
+ "C08": dict(technique="static analysis: exact-length closure and validator must-pass rules over enumerated decode paths, symbolic encode∘decode composition with a table of inverse library pairs, component-wise Clone check, public-key derivation terms",
+   text="For every HasKey impl (6 backends x 5 kinds): decode is closed by the kind's exact width, encode(decode(b)) = b symbolically (no canonicalising/truncating decoder), each success path passes the key type's validating constructor, Ed25519 secret decoders re-derive and compare the public half, manual Clone impls are component-wise, public_key() is the scheme's public key of that secret and equals the embedded half. One known finding (D7: libsodium public keys are length-checked only) is listed in known_findings.json.",
+   ref="DESIGN.md §4 C08"),
+ "C13": dict(technique="static analysis: symbolic hash_key terms vs specification and siblings, plumbing terms of KeyId::from / Key::id, std-op census of comparison impls, shared text-form and re-encoding rules",
+   text="hash_key of all 6 backends equals the specified digest construction (and siblings agree), ids are computed over the key's own canonical text via expose_key(), the re-encoding equals the supplied encoding, id text is a strict 33-byte mirror form, Eq/Ord/Hash/Clone use only the id bytes, lid/pid/sid headers are distinct.",
+   ref="DESIGN.md §4 C13"),
  "C09": dict(technique="static analysis: Display/FromStr summary mirroring, whole-remainder dataflow rule, dominator rule over the base64 decoder CFG, symbolic extraction of alphabet/bit-layout constants compared with RFC 4648 §5 by arithmetic, serde impl census",
    text="The six text forms are mirror images (same constants in the same order, same stored field, whole remainder decoded, '.'+footer iff non-empty); base64 decode accumulates every verdict unconditionally before the single err==0 test, validates the last block on the Ok path, sizes output by decoded_len; the alphabet and 6-bit packing constants extracted from the code equal RFC 4648 §5; serde uses exactly the text form; key ids must be 33 bytes. Construction-level: a different coding style fails closed.",
    ref="DESIGN.md §4 C09"),
